@@ -1,4 +1,4 @@
-\* behaviours for the replay on the real Discovery: coarse schedules (internal steps at once), no GC
+\* random behaviours (coarse schedules, no GC) replayed on the real Discovery
 SPECIFICATION SpecB
 CONSTANTS
   Peers = {"p1", "p2", "p3"}
@@ -19,6 +19,6 @@ CONSTANTS
   Serialized = FALSE
   DirectAPI = FALSE
   MaxLen = 70
-ACTION_CONSTRAINT CoarseSchedule
 CHECK_DEADLOCK FALSE
+ACTION_CONSTRAINT CoarseSchedule
 INVARIANTS TypeOK SizeBound ReportedExactlyOnce ViewBookkeeping PeersResult
